@@ -9,16 +9,36 @@ import Cvss.Proofs.Bits20
 import Cvss.Proofs.Bits30
 import Cvss.Proofs.Bits31
 import Cvss.Proofs.Bits40
+import Cvss.Props.C13v3
+import Cvss.Props.C13v4
+import Cvss.Proofs.HeaderErr
 /-!
 # C18 — failures are reported with the documented error values (assembled)
 
-For every grammatical vector (witness list `w`), every defect of `Spec/Errors.lean` and every position, the parser
-model returns exactly the promised error value (`Spec.Defect.apply`), with the abbreviation payload for the typed
-errors. v3.0/v3.1/v4.0: full statement. v2.0: the full statement is FALSE (known finding F3,
+**Header (v3.0, v3.1, v4.0) — unconditional, for every byte string** (`header30`, `header31`, `header40`; no witness,
+no generator): "a wrong or missing header" means, exactly,
+* v3.0 / v3.1: the string does not begin with `CVSS:3.0/` resp. `CVSS:3.1/` — *including the slash*. So the empty
+  string, another version's header, a lower-case header, the bare `CVSS:3.1` and `CVSS:3.1X/AV:…` (header followed
+  by junk) are all header errors;
+* v4.0: the string does not begin with `CVSS:4.0` — *without* slash. `CVSS:4.0` followed directly by junk is NOT a
+  header error in v4.0: `CVSS:4.0X…` (any byte `X ≠ '/'`) yields ErrInvalidMetricValue whatever follows
+  (`v40_header_then_junk`), the bare `CVSS:4.0` yields ErrTooShortVector (`v40_header_only`), and `CVSS:4.0/…`
+  continues with the element loop (order / value / too-short errors, never the header error).
+The converse holds too (`header30_iff`, `header31_iff`, `header40_iff`): ErrInvalidCVSSHeader is returned for these
+strings only. (`Spec.Defect.header p` generates a subset of these strings: those that do not even begin with the
+bare `CVSS:3.x` / `CVSS:4.0`.)
+
+**Single defects.** For every grammatical vector (witness list `w`), every defect of `Spec/Errors.lean` and every
+position, the parser model returns exactly the promised error value (`Spec.Defect.apply`), with the abbreviation
+payload for the typed errors. "Misplaced" is `swap i` (two neighbours) and, in general, `move i j` (any element taken
+out and put back at any other position); the side conditions under which a defect promises nothing are listed at
+the top of `Spec/Errors.lean`. v3.0/v3.1/v4.0: full statement. v2.0: the full statement is FALSE (known finding F3,
 `Findings.C18.V2.v2_misplaced_after_env`); `v20_partial` proves it for every defect that is not an insertion after
 a complete environmental group, and `C18.V2.v2_errors_afterEnv` shows that in exactly that case the code returns
-ErrInvalidMetricValue. Get/Set on an unknown abbreviation and Set with an illegal value: the contract fields
-`get_unknown`, `set_unknown`, `set_illegal` of `Bits20.contract20 … Proofs.B40.contract40` (theorems of C07/C09).
+ErrInvalidMetricValue. A `move` is never in that situation (`v20_move`: no side condition), and the exact form of
+"cut short inside a started group" is `C18.V2.truncated_inside_group`. Get/Set on an unknown abbreviation and Set
+with an illegal value: the contract fields `get_unknown`, `set_unknown`, `set_illegal` of
+`Bits20.contract20 … Proofs.B40.contract40` (theorems of C07/C09).
 -/
 namespace C18
 open Model Proofs
@@ -37,6 +57,73 @@ theorem v20_partial (w : List Spec.Pair) (d : Spec.Defect) (s : Bytes) (e : Spec
     (hw : ∃ s0, Spec.V2.Witness s0 w) (hd : d.apply .v20 w = some (s, e)) (hna : C18.V2.afterEnv w d = false) :
     parse20 s = .err ⟨e.1, e.2⟩ :=
   C18.V2.model_v2_errors_partial Bits20.contract20 rfl rfl w d s e hw hd hna
+
+/-- v2.0, misplaced in general (`move`): full strength, F3 cannot occur -/
+theorem v20_move (w : List Spec.Pair) (i j : Nat) (s : Bytes) (e : Spec.ErrVal)
+    (hw : ∃ s0, Spec.V2.Witness s0 w) (hd : (Spec.Defect.move i j).apply .v20 w = some (s, e)) :
+    parse20 s = .err eOrder ∧ e = (3, []) := by
+  have h := v20_partial w _ s e hw hd rfl
+  obtain ⟨_, _, _, _, _, he⟩ := Proofs.Parse2.move_unfold hd
+  subst he
+  exact ⟨h, rfl⟩
+/-- v4.0, misplaced in general (`move`), spelled out (it is an instance of `v40`) -/
+theorem v40_move (w : List Spec.Pair) (i j : Nat) (p : Spec.Pair) (hw : ∃ s0, Spec.V4.Witness s0 w)
+    (hp : w[i]? = some p) (hji : j ≠ i) (hj : j < w.length) :
+    parse40 (Spec.V4.header ++ Proofs.P4.body (Spec.insertAt (w.eraseIdx i) j p)) = .err eOrder := by
+  rw [Proofs.P4.parse40_eq_parseK Proofs.B40.contract40 rfl rfl]
+  exact C18.V4.moved_metric _ hw hp hji hj
+/-- v2.0, the same -/
+theorem v20_move' (w : List Spec.Pair) (i j : Nat) (p : Spec.Pair) (hw : ∃ s0, Spec.V2.Witness s0 w)
+    (hp : w[i]? = some p) (hji : j ≠ i) (hj : j < w.length) :
+    parse20 (Spec.joinSlash ((Spec.insertAt (w.eraseIdx i) j p).map Spec.render)) = .err eOrder := by
+  rw [Proofs.Parse2.parse20_eq_parseK Bits20.contract20 rfl rfl]
+  exact C18.V2.moved_metric _ w hw hp hji hj
+
+/-! ## the header clause, for every byte string -/
+
+/-- **v3.0**: every string that does not begin with `CVSS:3.0/` -/
+theorem header30 (s : Bytes) (h : ¬ (Spec.V3.header30 ++ [47]) <+: s) : parse30 s = .err eHeader := by
+  unfold Model.parse30; rw [Proofs.Parse3.const_header30]; exact C13.V3.not_prefix_err _ _ _ s h
+/-- **v3.1**: every string that does not begin with `CVSS:3.1/` -/
+theorem header31 (s : Bytes) (h : ¬ (Spec.V3.header31 ++ [47]) <+: s) : parse31 s = .err eHeader := by
+  unfold Model.parse31; rw [Proofs.Parse3.const_header31]; exact C13.V3.not_prefix_err _ _ _ s h
+/-- **v4.0**: every string that does not begin with `CVSS:4.0` -/
+theorem header40 (s : Bytes) (h : ¬ Spec.V4.header <+: s) : parse40 s = .err eHeader := by
+  rw [Proofs.P4.parse40_eq_parseK Proofs.B40.contract40 rfl rfl]; exact C13.V4.no_header _ h
+
+/-- and only those: ErrInvalidCVSSHeader ⇔ the prefix is missing -/
+theorem header30_iff (s : Bytes) : parse30 s = .err eHeader ↔ ¬ (Spec.V3.header30 ++ [47]) <+: s := by
+  rw [Proofs.Parse3.parse30_eq_K Bits30.contract30 rfl rfl]; exact Proofs.HeaderErr.parse3_header_iff _ _ s
+theorem header31_iff (s : Bytes) : parse31 s = .err eHeader ↔ ¬ (Spec.V3.header31 ++ [47]) <+: s := by
+  rw [Proofs.Parse3.parse31_eq_K Bits31.contract31 rfl rfl]; exact Proofs.HeaderErr.parse3_header_iff _ _ s
+theorem header40_iff (s : Bytes) : parse40 s = .err eHeader ↔ ¬ Spec.V4.header <+: s := by
+  rw [Proofs.P4.parse40_eq_parseK Proofs.B40.contract40 rfl rfl]; exact Proofs.HeaderErr.parseK_header_iff _ s
+
+/-- v4.0: the header followed directly by a byte other than `/` is ErrInvalidMetricValue, whatever follows -/
+theorem v40_header_then_junk (c : Nat) (r : Bytes) (hc : c ≠ 47) :
+    parse40 (Spec.V4.header ++ c :: r) = .err eValue := by
+  rw [Proofs.P4.parse40_eq_parseK Proofs.B40.contract40 rfl rfl, Proofs.P4.parseK_header_append]
+  exact if_neg hc
+/-- v4.0: the bare header is ErrTooShortVector -/
+theorem v40_header_only : parse40 Spec.V4.header = .err eTooShort := by decide
+
+/-- the headers, as bytes -/
+example : Spec.V3.header30 ++ [47] = Spec.b "CVSS:3.0/" ∧ Spec.V3.header31 ++ [47] = Spec.b "CVSS:3.1/" ∧
+    Spec.V4.header = Spec.b "CVSS:4.0" := by decide
+/-- header followed by junk: a header error in v3 (the generator `Defect.header` promises nothing for it) … -/
+example : parse31 (Spec.b "CVSS:3.1X/AV:N/AC:L/PR:N/UI:N/S:U/C:H/I:H/A:H") = .err eHeader :=
+  header31 _ (by rw [← List.isPrefixOf_iff_prefix]; decide)
+example : (Spec.Defect.header (Spec.b "CVSS:3.1X")).apply .v31 C18.V3.w₀ = none := by decide
+/-- … the bare header and the missing header too … -/
+example : parse31 (Spec.b "CVSS:3.1") = .err eHeader := header31 _ (by rw [← List.isPrefixOf_iff_prefix]; decide)
+example : parse30 [] = .err eHeader := header30 _ (by rw [← List.isPrefixOf_iff_prefix]; decide)
+example : parse30 (Spec.b "CVSS:3.1/AV:N/AC:L/PR:N/UI:N/S:U/C:H/I:H/A:H") = .err eHeader :=
+  header30 _ (by rw [← List.isPrefixOf_iff_prefix]; decide)
+/-- … but a value error in v4.0 -/
+example : parse40 (Spec.b "CVSS:4.0X/AV:N/AC:L/AT:N/PR:N/UI:N/VC:H/VI:H/VA:H/SC:N/SI:N/SA:N") = .err eValue :=
+  v40_header_then_junk 88 _ (by decide)
+example : parse40 (Spec.b "CVSS:4.1/AV:N/AC:L/AT:N/PR:N/UI:N/VC:H/VI:H/VA:H/SC:N/SI:N/SA:N") = .err eHeader :=
+  header40 _ (by rw [← List.isPrefixOf_iff_prefix]; decide)
 
 /-- Get/Set on an unknown abbreviation return `*ErrInvalidMetric{abv}`; Set with an illegal value
     `ErrInvalidMetricValue`; the object is unchanged (all versions, every byte state). -/
